@@ -204,6 +204,10 @@ def run(ctx):
                      ('match_relationships', [NAME, '1.5', ms])]
     bad += ctx.compare('corr:vectors', vec_reqs, impl)
 
+    # answers the implementation itself gives differently for one and the same question (see _deps.impl)
+    for (fn, args), iv, mv in bad:
+        if isinstance(iv, list) and iv[:1] == ['differs']:
+            fails.append(([fn, args], '%s%r: %s' % (fn, tuple(args), iv[1])))
     fails.sort(key=lambda f: len(repr(f[0])))
     for x, why in fails[:10]:
         ctx.violation('property', 'C15 fails on the implementation: ' + why, x)
